@@ -973,6 +973,8 @@ class AtLeast(puan.Proposition):
         }
         if not self.generated_id:
             d['id'] = self.id
+        if self.sign != (puan.Sign.POSITIVE if self.value > 0 else puan.Sign.NEGATIVE):
+            d['sign'] = int(self.sign)
 
         return d
 
@@ -1028,7 +1030,8 @@ class AtLeast(puan.Proposition):
         return AtLeast(
             value=data.get('value', 1),
             propositions=list(map(functools.partial(from_json, class_map=class_map), propositions)),
-            variable=data.get('id', None)
+            variable=data.get('id', None),
+            sign=data.get('sign', None),
         )
 
     @staticmethod
